@@ -761,3 +761,43 @@ func init() {
 		MinReach: []string{"end"}, TVVectors: 2,
 	})
 }
+
+func init() {
+	register(&Property{
+		ID: "C16", Dirs: []string{"internal/ryu"},
+		Jobs: func(tier string) []Job {
+			jobs := []Job{{Harness: "VX_C16_special"}}
+			e2s := []int{0, 1, 3, 10, 20}
+			es := []int{0, -1, -17}
+			if tier == "thorough" {
+				e2s = nil
+				for k := 0; k <= 52; k++ {
+					e2s = append(e2s, k)
+				}
+				es = nil
+				for k := -40; k <= 25; k++ {
+					es = append(es, k)
+				}
+				es = append(es, -343, -324, -100, 100, 292, 308)
+			}
+			for _, k := range e2s {
+				jobs = append(jobs, Job{Harness: "VX_C16_exactint", Params: P("e2", itoa(k))})
+			}
+			for _, e := range es {
+				for _, bs := range [][2]int{{0, 0}, {3, 0}, {0, 40}, {3, 5}} {
+					if tier != "thorough" && bs != [2]int{3, 5} && bs != [2]int{0, 0} {
+						continue
+					}
+					jobs = append(jobs, Job{Harness: "VX_C16_layout", Params: P("e", itoa(e), "n0", itoa(bs[0]), "spare", itoa(bs[1]))})
+				}
+			}
+			return jobs
+		},
+		Bounds: func(tier string) string {
+			return "special values (+-0, +-Inf) over all their bit patterns with a symbolic 3-byte buffer prefix; exact-integer path for all 2^52 mantissas at binary exponents {0,1,3,10,20} (thorough: 0..52); positional layout dec64.appendF for every m in [1,10^17), both signs, decimal exponents {-17,-1,0} (thorough: -40..25 and -343,-324,-100,100,292,308), destination buffers of length 0/3 with spare capacity 0/5/40 and arbitrary prior content (including the spare capacity)"
+		},
+		Assume:   []string{"PARTIAL: the shortest-digit search float64ToDecimal (the core of the property: fewest digits, round trip) is NOT decided: its 64x128-bit multiplications and chained divisions are out of reach of the installed solvers (DESIGN 8.1)", "digit extraction (%10, /10 chains) is compared as identical terms: the check decides placement of sign, digits, zeros and the decimal point, and buffer handling"},
+		Outside:  []string{"float64ToDecimal (shortest representation, correct rounding)", "NaN (excluded by the statement)"},
+		MinReach: []string{"end", "exact"}, TVVectors: 3, Level: "model_checking",
+	})
+}
